@@ -19,17 +19,25 @@ EXACT_RATIOS = ["2", "4", "5", "10", "2.5", "0.5", "1.25", "20", "8", "0.2"]   #
 def plan(tier, seed):
     k = 30 if tier == "quick" else 600
     shards = [{"kind": "twin", "cls": c, "seed": seed, "shard": i, "n": 150} for c in ("exact", "rounded") for i in range(k)]
+    shards += [{"kind": "twin", "cls": "split_on_trade_date", "seed": seed, "shard": i, "n": 150} for i in range(k // 2)]
     shards += [{"kind": "pair", "seed": seed, "shard": i, "n": 150} for i in range(k)]
     return shards
 
 
-def rescale_to_final_units(txs, digits=None):
+def rescale_to_final_units(txs, digits=None, same_day=None):
     """Twin ledger in which every split/unsplit line is removed and every earlier quantity of that
     security is multiplied by the later multipliers (unit prices divided).  digits=None -> exact
     (raises ValueError if not a terminating decimal); otherwise buys round up, sells down."""
     mult = defaultdict(lambda: ONE)
     out = []
     order = sorted(range(len(txs)), key=lambda i: txs[i]["date"], reverse=True)
+    if same_day is not None:
+        # a reading of "a split on a trade date": "pre" = that date's other lines are in pre-split units (the split
+        # takes effect after them), "post" = they are already in post-split units. Walking backwards in time, "pre"
+        # meets the date's split lines first, "post" meets them last.
+        is_split = lambda i: txs[i]["kind"] in ("SPLIT", "UNSPLIT")
+        order = sorted(range(len(txs)), key=lambda i: (txs[i]["date"], is_split(i) if same_day == "pre" else not is_split(i)),
+                       reverse=True)
     factor_at = {}
     for i in order:
         t = txs[i]
@@ -206,7 +214,9 @@ def event_on_zero_holding(txs):
 
 def run_twin(desc):
     rng = rng_for(PROP, desc["seed"], desc["cls"], desc["shard"])
-    exactish = desc["cls"] == "exact"
+    exactish = desc["cls"] in ("exact", "split_on_trade_date")
+    if desc["cls"] == "split_on_trade_date":
+        return run_twin_split_day(desc)
     cnt = Counter()
     viols = []
     hashes = set()
@@ -254,6 +264,89 @@ def run_twin(desc):
             viols.append(x)
         if len(samples) < 2 and not vs and len(base) <= 8 and "ok" in oa:
             samples.append({"with_splits": lc.brief(base), "post_split_units": lc.brief(twin)})
+    return {"evaluations": len(reqs), "nontrivial_hashes": hashes, "counters": cnt, "violations": cap_viols(viols), "samples": samples}
+
+
+def f15_shape(txs):
+    """Some security has a SPLIT/UNSPLIT on one of its trade dates, dated inside (or at either end of) the 30 days
+    between a SELL and a later BUY of that security - the only place where the look-ahead's line-order-dependent
+    reading of a same-date split (F15) can act."""
+    split_days = {(t["ticker"], t["date"]) for t in txs if t["kind"] in ("SPLIT", "UNSPLIT")}
+    trade_days = {(t["ticker"], t["date"]) for t in txs if t["kind"] in ("BUY", "SELL")}
+    for tk, d_ in split_days & trade_days:
+        sd = pdate(d_)
+        sells = [pdate(t["date"]) for t in txs if t["ticker"] == tk and t["kind"] == "SELL"]
+        buys = [pdate(t["date"]) for t in txs if t["ticker"] == tk and t["kind"] == "BUY"]
+        for s_ in sells:
+            for b_ in buys:
+                if 0 < (b_ - s_).days <= 30 and s_ <= sd <= b_:
+                    return True
+    return False
+
+
+def judge_split_day(base, obs3, cnt):
+    """Set-valued oracle for a ledger with SPLIT/UNSPLIT on trade dates: whether a split applies before or after the
+    trades of its date is fixed by no property, so the report must equal the post-split-units twin under at least one
+    of the two readings (applied consistently to the whole ledger)."""
+    oa, o_pre, o_post = obs3
+    t_pre, sc_pre = rescale_to_final_units(base, None, same_day="pre")
+    t_post, sc_post = rescale_to_final_units(base, None, same_day="post")
+    v_pre = compare_twin(base, t_pre, sc_pre, oa, o_pre, True, Counter())
+    v_post = compare_twin(base, t_post, sc_post, oa, o_post, True, Counter())
+    if not v_pre or not v_post:
+        cnt["split_day_matches_reading_" + ("both" if not v_pre and not v_post else ("pre" if not v_pre else "post"))] += 1
+        return []
+    # F15 (open): the 30-day look-ahead applies a same-date split iff its line precedes the trade's line - a third,
+    # line-order-dependent reading. It can only matter for a security with a split on a trade date and a 30-day leg.
+    sfx = ":30-day-window-over-a-split-on-a-trade-date" if f15_shape(base) else ""
+    if "ok" not in oa:
+        sfx += ":refused"
+    out = []
+    for x in v_pre[:1]:
+        out.append({"clause": "matches-neither-reading-of-a-split-on-a-trade-date",
+                    "signature": "matches-neither-reading-of-a-split-on-a-trade-date" + sfx,
+                    "detail": "split after that date's trades: " + str(x["detail"])[:300] + " || split before them: "
+                              + str(v_post[0]["detail"])[:300]})
+    return out
+
+
+def run_twin_split_day(desc):
+    rng = rng_for(PROP, desc["seed"], desc["cls"], desc["shard"])
+    cnt, viols, hashes, samples = Counter(), [], set(), []
+    reqs, meta = [], []
+    import vf.gen.ledger as G
+    for _ in range(desc["n"]):
+        opts = Opts(capital=rng.random() < 0.6, splits=True, strict_splits=False, nonterm_splits=False, n_sec=(1, 2),
+                    steps=(4, 12), templates_p=0.3, qty_dp=3, price_dp=4)
+        saved = G.SPLIT_RATIOS_TERM
+        G.SPLIT_RATIOS_TERM = EXACT_RATIOS
+        try:
+            base, _f = gen_ledger(rng, opts)
+        finally:
+            G.SPLIT_RATIOS_TERM = saved
+        if not lc.split_trade_same_day(base):
+            continue
+        try:
+            t_pre, _ = rescale_to_final_units(base, None, same_day="pre")
+            t_post, _ = rescale_to_final_units(base, None, same_day="post")
+        except ValueError:
+            cnt["twin_not_expressible"] += 1
+            continue
+        if any(len(t["price"][0].replace(".", "")) > 26 or len(t["amount"].replace(".", "")) > 26
+               for tw in (t_pre, t_post) for t in tw if t["kind"] in ("BUY", "SELL")):
+            cnt["twin_too_many_digits"] += 1
+            continue
+        reqs += [lc.calc_case(base), lc.calc_case(t_pre), lc.calc_case(t_post)]
+        meta.append(base)
+    obs = probe().run(reqs)
+    for i, base in enumerate(meta):
+        cnt["split_day_twins"] += 1
+        vs = judge_split_day(base, obs[3 * i: 3 * i + 3], cnt)
+        if "ok" in obs[3 * i]:
+            hashes.add(sha(base)[:16])
+        for x in vs:
+            x["case"] = {"op": "twin_split_day", "txs": base}
+            viols.append(x)
     return {"evaluations": len(reqs), "nontrivial_hashes": hashes, "counters": cnt, "violations": cap_viols(viols), "samples": samples}
 
 
@@ -316,6 +409,12 @@ def run_shard(desc):
 
 
 def replay(case):
+    if case.get("op") == "twin_split_day":
+        base = case["txs"]
+        t_pre, _ = rescale_to_final_units(base, None, same_day="pre")
+        t_post, _ = rescale_to_final_units(base, None, same_day="post")
+        obs = probe().run([lc.calc_case(base), lc.calc_case(t_pre), lc.calc_case(t_post)])
+        return judge_split_day(base, obs, Counter()), {"base": obs[0]}
     if case.get("op") == "twin":
         twin, scale = rescale_to_final_units(case["txs"], None if case["exactish"] else 18)
         oa, ob = probe().run([lc.calc_case(case["txs"]), lc.calc_case(twin)])
